@@ -71,6 +71,17 @@ fn c10_page(buf: &mut C10Buf, id: PageId) -> BtreePage {
     *p.metadata_mut() = <BtreePageHeader as Allocatable>::alloc(id, size);
     p
 }
+/// `mem::swap` as two typed moves.  std swaps byte chunks (`swap_nonoverlapping_bytes`); for `(u16, usize)` - the
+/// element type of the BinaryHeap in `defragment` - a chunk mixes the u16 with 6 padding bytes (nondet for CBMC), so
+/// every `BinaryHeap::pop` but the last returns a non-constant offset and symex loses all constants.
+pub(crate) fn c10_swap<T>(x: &mut T, y: &mut T) {
+    unsafe {
+        let a = std::ptr::read(x);
+        let b = std::ptr::read(y);
+        std::ptr::write(x, b);
+        std::ptr::write(y, a);
+    }
+}
 fn c10_okf<T, E>(r: Result<T, E>) -> Option<T> {
     match r {
         Ok(v) => Some(v),
@@ -201,21 +212,26 @@ impl C10Laws {
             leaves: 0,
         }
     }
+    /// One assert per law.  Each is reached through its own value of a symbolic selector: after a failing `assert!`
+    /// the execution stops, so in a straight sequence a law that fails on every execution would hide all later ones.
     fn assert_all(&self) {
-        assert!(self.leaves >= 1, "sequence_ran_to_completion");
-        assert!(self.num_slots, "num_slots_as_expected");
-        assert!(self.inside, "cells_inside_data_area_after_slot_array");
-        assert!(self.aligned, "cell_offsets_and_sizes_aligned");
-        assert!(self.disjoint, "cells_pairwise_disjoint");
-        assert!(self.accounting, "free_space_plus_stored_cells_is_capacity");
-        assert!(self.fsp, "free_space_ptr_not_above_any_cell");
-        assert!(self.header, "slot_i_holds_header_of_logical_cell_i");
-        assert!(self.payload, "payload_bytes_of_stored_cells_unchanged");
-        assert!(self.api, "cell_ref_returns_logical_cell_i");
-        assert!(self.op_result, "operation_succeeds_iff_model_says_so");
-        assert!(self.returned, "returned_cell_is_the_old_cell");
-        assert!(self.err_unchanged, "err_leaves_page_logically_unchanged");
-        assert!(self.compact, "defragment_leaves_no_gaps");
+        let which: u8 = kani::any();
+        match which {
+            0 => assert!(self.leaves >= 1, "sequence_ran_to_completion"),
+            1 => assert!(self.num_slots, "num_slots_as_expected"),
+            2 => assert!(self.inside, "cells_inside_data_area_after_slot_array"),
+            3 => assert!(self.aligned, "cell_offsets_and_sizes_aligned"),
+            4 => assert!(self.disjoint, "cells_pairwise_disjoint"),
+            5 => assert!(self.accounting, "free_space_plus_stored_cells_is_capacity"),
+            6 => assert!(self.fsp, "free_space_ptr_not_above_any_cell"),
+            7 => assert!(self.header, "slot_i_holds_header_of_logical_cell_i"),
+            8 => assert!(self.payload, "payload_bytes_of_stored_cells_unchanged"),
+            9 => assert!(self.api, "cell_ref_returns_logical_cell_i"),
+            10 => assert!(self.op_result, "operation_succeeds_iff_model_says_so"),
+            11 => assert!(self.returned, "returned_cell_is_the_old_cell"),
+            12 => assert!(self.err_unchanged, "err_leaves_page_logically_unchanged"),
+            _ => assert!(self.compact, "defragment_leaves_no_gaps"),
+        }
     }
 }
 
@@ -361,6 +377,28 @@ fn c10_do_defrag(p: &mut BtreePage, m: &mut C10Model, l: &mut C10Laws) {
     l.compact &= p.free_space_pointer() as usize == p.free_space() as usize + p.num_slots() * C10_SLOT;
 }
 
+/// `drain(..)` as used by Bplustree (split / merge / rebalance): yields every cell in slot order and empties the page
+fn c10_do_drain(p: &mut BtreePage, m: &mut C10Model, l: &mut C10Laws) {
+    let mut k = 0;
+    let mut ok = true;
+    {
+        let mut it = p.drain(..);
+        while k < m.n {
+            match it.next() {
+                Some(c) => ok &= c10_owned_matches(&c, &m.c[k]),
+                None => ok = false,
+            }
+            k += 1;
+        }
+        ok &= it.next().is_none();
+    }
+    l.returned &= ok;
+    while m.n > 0 {
+        m.remove(m.n - 1);
+    }
+    c10_after(p, m, l, false);
+}
+
 /// dispatch a symbolic selector to a constant index in 0..=hi (selector values above hi map to hi)
 fn c10_branch<F: FnMut(usize)>(sel: u8, hi: usize, mut f: F) {
     if hi == 0 || sel == 0 {
@@ -416,6 +454,12 @@ macro_rules! c10_seq {
             });
         }
     };
+    ($p:ident $m:ident $l:ident $sel:ident $v:ident ($k:expr); drain $($rest:tt)*) => {
+        {
+            c10_do_drain(&mut $p, &mut $m, &mut $l);
+            c10_seq!($p $m $l $sel $v ($k + 1); $($rest)*);
+        }
+    };
     ($p:ident $m:ident $l:ident $sel:ident $v:ident ($k:expr); defrag $($rest:tt)*) => {
         {
             c10_do_defrag(&mut $p, &mut $m, &mut $l);
@@ -428,6 +472,7 @@ macro_rules! c10_h {
         #[kani::proof]
         #[kani::unwind($unwind)]
         #[kani::stub(std::fmt::format, c10_stub_format)]
+        #[kani::stub(std::mem::swap, c10_swap)]
         fn $name() {
             let sel: [u8; 6] = kani::any();
             let v: [C10Cell; 6] = [c10_val(true), c10_val(false), c10_val(true), c10_val(false), c10_val(true), c10_val(false)];
@@ -446,31 +491,279 @@ macro_rules! c10_h {
 
 // ---- C10.page_ops: sequences that must keep every law ------------------------------------------------------------
 // notation: ins(N) = insert(i, N-byte cell) for every i in 0..=len; push(N) = insert(len, ..); rem = remove(i) for every
-// i < len; rep(N) = replace(i, N-byte cell) for every i < len; defrag = defragment()
-// @obl harness=c10_ops_ins8 id=C10.page_ops[ins8] tier=quick funcs="BtreeOps::insert,BtreeOps::cell,BtreePageHeader::new" bounds="page 4096, empty page; one insert of an 8-byte cell; payload bytes / left child / page id symbolic" stubs="std::fmt::format"
+// i < len; remat(i) = remove(i); rep(N) = replace(i, N-byte cell) for every i < len; defrag = defragment(); drain = drain(..)
+// Every harness: page of 4096 bytes built like BtreePage::alloc; page id, payload bytes (first / interior / last) and
+// left-child values symbolic; laws checked after every step on every path.
+// @obl harness=c10_ops_ins8 id=C10.page_ops[ins8] tier=quick funcs="BtreeOps::insert,BtreeOps::cell,BtreePageHeader::new" bounds="empty page; one insert of an 8-byte cell" stubs="std::fmt::format,std::mem::swap"
 c10_h!(c10_ops_ins8, 6; ins(8));
-// @obl harness=c10_ops_ins24_ins13 id=C10.page_ops[ins24,ins13] tier=quick funcs="BtreeOps::insert,BtreeOps::cell" bounds="page 4096; insert 24-byte cell then 13-byte cell (padded to 16) at every index 0..=1" stubs="std::fmt::format"
+// @obl harness=c10_ops_ins24_ins13 id=C10.page_ops[ins24,ins13] tier=quick funcs="BtreeOps::insert,BtreeOps::cell" bounds="insert 24-byte cell then 13-byte cell (padded to 16) at every index 0..=1" stubs="std::fmt::format,std::mem::swap"
 c10_h!(c10_ops_ins24_ins13, 6; ins(24) ins(13));
-// @obl harness=c10_ops_ins8_ins24_ins120 id=C10.page_ops[ins8,ins24,ins120] tier=quick funcs="BtreeOps::insert,BtreeOps::cell" bounds="page 4096; three inserts (8, 24, 120 bytes) at every index combination (6 orders)" stubs="std::fmt::format"
+// @obl harness=c10_ops_ins8_ins24_ins120 id=C10.page_ops[ins8,ins24,ins120] tier=quick funcs="BtreeOps::insert,BtreeOps::cell" bounds="three inserts (8, 24, 120 bytes) at every index combination (6 orders)" stubs="std::fmt::format,std::mem::swap"
 c10_h!(c10_ops_ins8_ins24_ins120, 6; ins(8) ins(24) ins(120));
-// @obl harness=c10_ops_ins1000_ins8_rem id=C10.page_ops[ins1000,ins8,rem] tier=quick funcs="BtreeOps::insert,BtreeOps::remove,BtreeOps::owned_cell" bounds="page 4096; insert 1000-byte and 8-byte cell in both orders, remove either" stubs="std::fmt::format"
+// @obl harness=c10_ops_ins1000_ins8_rem id=C10.page_ops[ins1000,ins8,rem] tier=quick funcs="BtreeOps::insert,BtreeOps::remove,BtreeOps::owned_cell" bounds="insert 1000-byte and 8-byte cell in both orders, remove either" stubs="std::fmt::format,std::mem::swap"
 c10_h!(c10_ops_ins1000_ins8_rem, 6; ins(1000) ins(8) rem);
-// @obl harness=c10_ops_ins24_ins120_rem_ins8 id=C10.page_ops[ins24,ins120,rem,ins8] tier=quick funcs="BtreeOps::insert,BtreeOps::remove" bounds="page 4096; two inserts, remove either, insert again at every index (space of the removed cell is not reused without defragment)" stubs="std::fmt::format"
+// @obl harness=c10_ops_ins24_ins120_rem_ins8 id=C10.page_ops[ins24,ins120,rem,ins8] tier=thorough funcs="BtreeOps::insert,BtreeOps::remove" bounds="two inserts in both orders, remove either, insert again at every index (8 paths)" stubs="std::fmt::format,std::mem::swap"
 c10_h!(c10_ops_ins24_ins120_rem_ins8, 6; ins(24) ins(120) rem ins(8));
-// @obl harness=c10_ops_rep_same id=C10.page_ops[ins24,ins120,rep(same_padded_size)] tier=quick funcs="BtreeOps::replace" bounds="page 4096; cells of 24 and 120 bytes; replace either by a 24-byte cell resp. both by 20-byte (pads to 24): in-place path without size change when old is the 24-byte cell, shrink when old is the 120-byte cell is excluded -> see c10_find_rep_shrink" stubs="std::fmt::format"
+// @obl harness=c10_ops_rep_same id=C10.page_ops[push24,push24,rep20] tier=quick funcs="BtreeOps::replace" bounds="two 24-byte cells; replace either by a 20-byte cell (pads to 24: in-place path, stored size unchanged)" stubs="std::fmt::format,std::mem::swap"
 c10_h!(c10_ops_rep_same, 6; push(24) push(24) rep(20));
-// @obl harness=c10_ops_rep_grow id=C10.page_ops[ins8,ins24,rep120] tier=quick funcs="BtreeOps::replace,BtreeOps::remove,BtreeOps::insert" bounds="page 4096; cells of 8 and 24 bytes in both orders; replace either by a 120-byte cell (remove + insert path)" stubs="std::fmt::format"
+// @obl harness=c10_ops_rep_grow id=C10.page_ops[ins8,ins24,rep120] tier=quick funcs="BtreeOps::replace,BtreeOps::remove,BtreeOps::insert" bounds="cells of 8 and 24 bytes in both orders; replace either by a 120-byte cell (remove + insert path)" stubs="std::fmt::format,std::mem::swap"
 c10_h!(c10_ops_rep_grow, 6; ins(8) ins(24) rep(120));
-// @obl harness=c10_ops_defrag1 id=C10.page_ops[ins24,defrag] tier=quick funcs="BtreeOps::defragment" bounds="page 4096; one 24-byte cell, defragment (cell already in place)" stubs="std::fmt::format"
-c10_h!(c10_ops_defrag1, 6; ins(24) defrag);
-// @obl harness=c10_ops_rem_defrag id=C10.page_ops[push120,push24,push8,rem,defrag] tier=quick funcs="BtreeOps::defragment,BtreeOps::remove" bounds="page 4096; three cells, remove any, defragment" stubs="std::fmt::format"
-c10_h!(c10_ops_rem_defrag, 6; push(120) push(24) push(8) rem defrag);
-// @obl harness=c10_ops_ins_needs_defrag id=C10.page_ops[push2000,push1000,rem,ins1000] tier=quick funcs="BtreeOps::insert,BtreeOps::defragment,BtreeOps::remove" bounds="page 4096; cells of 2000 and 1000 bytes, remove either, insert 1000 bytes at every index: contiguous free space is too small, insert defragments first" stubs="std::fmt::format"
-c10_h!(c10_ops_ins_needs_defrag, 6; push(2000) push(1000) rem ins(1000));
-// @obl harness=c10_ops_err_full id=C10.page_ops[push2000,push1000,ins1000=Err] tier=quick funcs="BtreeOps::insert,BtreeOps::defragment" bounds="page 4096; cells of 2000 and 1000 bytes, a third of 1000 bytes does not fit at any index: Err(StorageFull) after an internal defragment; page logically unchanged; then a 900-byte cell fits" stubs="std::fmt::format"
-c10_h!(c10_ops_err_full, 6; push(2000) push(1000) ins(1000) ins(900));
+// @obl harness=c10_ops_defrag_moved id=C10.page_ops[push120,push24,push8,remat0,defrag] tier=quick funcs="BtreeOps::defragment,BtreeOps::remove" bounds="three cells, remove the first inserted (highest offset, 152 bytes), defragment: both remaining cells move by more than their own size" assume="region: no cell's source and destination overlap (complement: c10_find_defrag_*)" stubs="std::fmt::format,std::mem::swap"
+c10_h!(c10_ops_defrag_moved, 6; push(120) push(24) push(8) remat(0) defrag);
+// @obl harness=c10_ops_ins_needs_defrag id=C10.page_ops[push2000,push1000,remat0,ins1000] tier=quick funcs="BtreeOps::insert,BtreeOps::defragment,BtreeOps::remove" bounds="cells of 2000 and 1000 bytes, remove the 2000-byte one, insert 1000 bytes at every index: contiguous free space is too small, insert defragments first (the remaining cell moves by 2032 bytes)" assume="region: no overlap of source and destination inside defragment" stubs="std::fmt::format,std::mem::swap"
+c10_h!(c10_ops_ins_needs_defrag, 6; push(2000) push(1000) remat(0) ins(1000));
+// @obl harness=c10_ops_err_full id=C10.page_ops[push2000,push1000,remat0,ins3000=Err,ins1000] tier=quick funcs="BtreeOps::insert,BtreeOps::defragment" bounds="page holding one 1000-byte cell below a 2032-byte hole; a 3000-byte cell does not fit at any index: Err(StorageFull) after an internal defragment, page logically unchanged; afterwards a 1000-byte cell still fits" assume="region: no overlap inside defragment" stubs="std::fmt::format,std::mem::swap"
+c10_h!(c10_ops_err_full, 6; push(2000) push(1000) remat(0) ins(3000) ins(1000));
+// @obl harness=c10_ops_err_oversize id=C10.page_ops[push24,ins3984=Err,ins120] tier=quick funcs="BtreeOps::insert,BtreeOps::max_allowed_payload_size" bounds="payload of 3984 bytes (> max_allowed_payload_size = 3976) at every index: Err(InvalidInput), page unchanged; then a normal insert" stubs="std::fmt::format,std::mem::swap"
+c10_h!(c10_ops_err_oversize, 6; push(24) ins(3984) ins(120));
+// @obl harness=c10_ops_drain id=C10.page_ops[push24,push8,push120,rem,drain,push24] tier=quick funcs="BtreeOps::drain,BtreeOps::owned_cell,BtreeOps::insert" bounds="three cells, remove any, drain(..) returns the rest in slot order and empties the page, push works afterwards" stubs="std::fmt::format,std::mem::swap"
+c10_h!(c10_ops_drain, 6; push(24) push(8) push(120) rem drain push(24));
 
+// ---- C10.page_ops: regions where the pinned tree deviates (each isolates one defect) -----------------------------------
+// (1) replace with a SMALLER cell: storage/core/buffer.rs:816-833 overwrites in place and then does
+//     `free_space_pointer_down(free_bytes)` (:829) = free_space_ptr += old_total - new_total, although the shrunken cell
+//     still starts at its old offset.  The free-space pointer now points past cells that are alive; the next insert
+//     writes [free_space_ptr - total, free_space_ptr) (:761-777) over them.
+// @obl harness=c10_find_rep_shrink id=C10.page_ops[ins120,ins24,rep8/shrink] tier=quick funcs="BtreeOps::replace" bounds="cells of 120 and 24 bytes in both orders; replace either by an 8-byte cell" assume="region: new padded size < old padded size" stubs="std::fmt::format,std::mem::swap"
+c10_h!(c10_find_rep_shrink, 6; ins(120) ins(24) rep(8));
+// @obl harness=c10_find_rep_shrink_then_insert id=C10.page_ops[push1000,rep8,push1000/shrink] tier=quick funcs="BtreeOps::replace,BtreeOps::insert" bounds="one 1000-byte cell replaced by an 8-byte cell, then a 1000-byte cell appended: the new cell is written over the replaced one" assume="region: insert after a shrinking replace" stubs="std::fmt::format,std::mem::swap"
+c10_h!(c10_find_rep_shrink_then_insert, 6; push(1000) rep(8) push(1000));
+// (2) defragment copies a cell onto itself / onto an overlapping range with copy_from_slice (= ptr::copy_nonoverlapping):
+//     storage/core/buffer.rs:893-897 -> traits.rs:313-317.  Undefined behaviour; a forward-copying memcpy corrupts the
+//     cell when it moves up by less than its size.
+// @obl harness=c10_find_defrag_in_place id=C10.page_ops[push24,defrag/in_place] tier=quick funcs="BtreeOps::defragment,Writable::write_to" bounds="one cell, already at its destination: source == destination" assume="region: a cell does not move" stubs="std::fmt::format,std::mem::swap"
+c10_h!(c10_find_defrag_in_place, 6; push(24) defrag);
+// @obl harness=c10_find_defrag_partial id=C10.page_ops[push120,push8,push120,remat1,defrag/partial_overlap] tier=quick funcs="BtreeOps::defragment,Writable::write_to" bounds="three cells, the middle one (40 bytes) removed: the lowest cell (152 bytes) moves up by 40 bytes" assume="region: a cell moves by less than its size" stubs="std::fmt::format,std::mem::swap"
+c10_h!(c10_find_defrag_partial, 6; push(120) push(8) push(120) remat(1) defrag);
+// @obl harness=c10_find_insert_defrag id=C10.page_ops[push2000,push1000,remat1,ins1000/in_place] tier=quick funcs="BtreeOps::insert,BtreeOps::defragment" bounds="cells of 2000 and 1000 bytes, the lower one removed, insert of 1000 bytes defragments internally while the 2000-byte cell is already in place" assume="region: insert needs defragment and a cell does not move" stubs="std::fmt::format,std::mem::swap"
+c10_h!(c10_find_insert_defrag, 6; push(2000) push(1000) remat(1) ins(1000));
+// @obl harness=c10_find_err_full_defrag id=C10.page_ops[push2000,push1000,ins1000=Err/in_place] tier=quick funcs="BtreeOps::insert,BtreeOps::defragment" bounds="cells of 2000 and 1000 bytes, a third of 1000 bytes does not fit: Err(StorageFull) is only returned after defragment ran over cells that are in place (all other laws, incl. err_leaves_page_logically_unchanged, hold)" assume="region: StorageFull with a cell in place" stubs="std::fmt::format,std::mem::swap"
+c10_h!(c10_find_err_full_defrag, 6; push(2000) push(1000) ins(1000));
 
-c10_h!(c10_probe_e1, 6; push(120) push(24) push(8) defrag);
-c10_h!(c10_probe_e2, 6; push(24) push(8) remat(0) defrag);
-c10_h!(c10_probe_e3, 6; push(120) push(24) push(8) remat(0) defrag);
+// (3) slot index == num_slots is accepted by the bounds test of remove (`index > self.num_slots()`, buffer.rs:848) and
+//     replace has no bounds test at all (buffer.rs:801-802): both then index the slot array out of range and panic.
+/// page with `n` 8-byte cells (n = 0, 1, 2 chosen by a symbolic selector); runs `f` on it with the matching model
+fn c10_with_n_cells<F: FnMut(&mut BtreePage, &mut C10Model, &mut C10Laws)>(mut f: F) {
+    let sel: u8 = kani::any();
+    let v = [c10_val(true), c10_val(false)];
+    let mut buf = C10Buf::zeroed();
+    let mut p = c10_page(&mut buf, 7);
+    let mut m = C10Model::new();
+    let mut l = C10Laws::new();
+    c10_branch(sel, 2, |n| {
+        if n >= 1 {
+            c10_do_insert::<8>(&mut p, &mut m, &mut l, 0, &v[0]);
+        }
+        if n >= 2 {
+            c10_do_insert::<8>(&mut p, &mut m, &mut l, 1, &v[1]);
+        }
+        f(&mut p, &mut m, &mut l);
+        l.leaves += 1;
+    });
+    l.assert_all();
+    std::mem::forget(p);
+}
+// @obl harness=c10_oob_insert_remove id=C10.page_ops[oob:insert>len,remove>len] tier=quick funcs="BtreeOps::insert,BtreeOps::remove" bounds="pages with 0, 1, 2 cells; every index > len (usize): insert and remove return Err and leave the page unchanged" stubs="std::fmt::format,std::mem::swap"
+#[kani::proof]
+#[kani::unwind(6)]
+#[kani::stub(std::fmt::format, c10_stub_format)]
+#[kani::stub(std::mem::swap, c10_swap)]
+fn c10_oob_insert_remove() {
+    let idx: usize = kani::any();
+    let w = C10Cell { len: 8, ..c10_val(true) };
+    kani::cover!(true, "reach");
+    c10_with_n_cells(|p, m, l| {
+        if idx > m.n {
+            let r = c10_okf(p.insert(idx, c10_mk::<8>(&w)));
+            l.op_result &= r.is_none();
+            c10_after(p, m, l, true);
+            let r = c10_okf(p.remove(idx));
+            l.op_result &= r.is_none();
+            c10_after(p, m, l, true);
+        }
+    });
+}
+// @obl harness=c10_find_oob_remove_len id=C10.page_ops[oob:remove==len] tier=quick funcs="BtreeOps::remove,BtreeOps::get_cell_at" bounds="pages with 0, 1, 2 cells; remove(len)" assume="region: index == num_slots" stubs="std::fmt::format,std::mem::swap"
+#[kani::proof]
+#[kani::unwind(6)]
+#[kani::stub(std::fmt::format, c10_stub_format)]
+#[kani::stub(std::mem::swap, c10_swap)]
+fn c10_find_oob_remove_len() {
+    kani::cover!(true, "reach");
+    c10_with_n_cells(|p, m, l| {
+        let idx = m.n;
+        let r = c10_okf(p.remove(idx));
+        l.op_result &= r.is_none();
+        c10_after(p, m, l, true);
+    });
+}
+// @obl harness=c10_find_oob_replace id=C10.page_ops[oob:replace>=len] tier=quick funcs="BtreeOps::replace,BtreeOps::get_cell_at" bounds="pages with 0, 1, 2 cells; replace(i, 8-byte cell) for every i >= len" assume="region: index >= num_slots" stubs="std::fmt::format,std::mem::swap"
+#[kani::proof]
+#[kani::unwind(6)]
+#[kani::stub(std::fmt::format, c10_stub_format)]
+#[kani::stub(std::mem::swap, c10_swap)]
+fn c10_find_oob_replace() {
+    let idx: usize = kani::any();
+    let w = C10Cell { len: 8, ..c10_val(true) };
+    kani::cover!(true, "reach");
+    c10_with_n_cells(|p, m, l| {
+        if idx >= m.n {
+            let r = c10_okf(p.replace(idx, c10_mk::<8>(&w)));
+            l.op_result &= r.is_none();
+            c10_after(p, m, l, true);
+        }
+    });
+}
+
+// ---- the harness page is the page BtreePage::alloc builds ---------------------------------------------------------------
+// @obl harness=c10_alloc_equiv id=C10.page_ops[alloc] tier=quick funcs="<MemBlock<BtreePageHeader> as Allocatable>::alloc,MemBlock::new,MemBlock::from_non_null,BtreePageHeader::new" bounds="page size 4096, every page id; heap page vs the local-backed page used by all C10 harnesses: same header, size, capacity, data offset, zeroed data (symbolic probe index)"
+#[kani::proof]
+#[kani::unwind(4)]
+fn c10_alloc_equiv() {
+    let id: PageId = kani::any();
+    let j: usize = kani::any();
+    kani::assume(j < C10_CAP);
+    let a = BtreePage::alloc(id, C10_PS);
+    let mut buf = C10Buf::zeroed();
+    let b = c10_page(&mut buf, id);
+    kani::cover!(true, "reach");
+    let (ha, hb) = (a.metadata(), b.metadata());
+    assert!(
+        ha.page_number == id
+            && ha.num_slots == 0
+            && ha.page_size as usize == C10_PS
+            && ha.padding == 0
+            && ha.free_space as usize == C10_CAP
+            && ha.free_space_ptr as usize == C10_CAP
+            && ha.right_child.is_none()
+            && ha.next_sibling.is_none()
+            && ha.previous_sibling.is_none(),
+        "alloc_header_is_empty_page"
+    );
+    assert!(
+        ha.page_number == hb.page_number
+            && ha.num_slots == hb.num_slots
+            && ha.page_size == hb.page_size
+            && ha.padding == hb.padding
+            && ha.free_space == hb.free_space
+            && ha.free_space_ptr == hb.free_space_ptr
+            && ha.right_child == hb.right_child
+            && ha.next_sibling == hb.next_sibling
+            && ha.previous_sibling == hb.previous_sibling,
+        "harness_page_header_equals_alloc_header"
+    );
+    assert!(a.size() == C10_PS && b.size() == C10_PS && a.capacity() == C10_CAP && b.capacity() == C10_CAP, "harness_page_size_equals_alloc_size");
+    assert!(a.data().len() == C10_CAP && b.data().len() == C10_CAP, "data_area_is_page_minus_header");
+    let da = a.data().as_ptr() as usize - a.metadata() as *const BtreePageHeader as usize;
+    let db = b.data().as_ptr() as usize - b.metadata() as *const BtreePageHeader as usize;
+    assert!(da == BTREE_PAGE_HEADER_SIZE && db == BTREE_PAGE_HEADER_SIZE, "data_starts_right_after_header");
+    assert!(a.data()[j] == 0 && b.data()[j] == 0, "fresh_page_data_is_zero");
+    assert!(a.num_slots() == 0 && b.is_empty() && a.max_allowed_payload_size() == b.max_allowed_payload_size(), "fresh_page_has_no_slots");
+    std::mem::forget(a);
+    std::mem::forget(b);
+}
+
+// ---- C10.thresholds ---------------------------------------------------------------------------------------------------
+// @obl harness=c10_thresholds id=C10.thresholds tier=quick funcs="BtreeOps::overflow_threshold,BtreeOps::underflow_threshold,BtreeOps::max_payload_size_in,BtreeOps::ideal_max_payload_size,MemBlock::usable_space" bounds="page size = k * 4096 for k in 1..=16 (4096..=65536), min_cells in 3..=16" assume="documented configuration ranges (DBConfig clamps page size to [4096, 65536]; Btree::new requires min_keys >= 3)"
+#[kani::proof]
+#[kani::unwind(2)]
+fn c10_thresholds() {
+    let k: usize = kani::any();
+    let mc: usize = kani::any();
+    kani::assume(k >= 1 && k <= 16);
+    kani::assume(mc >= 3 && mc <= 16);
+    let ps = k * 4096;
+    kani::cover!(true, "reach");
+    // (built-in checks: no arithmetic overflow / underflow, the debug_asserts of ideal_max_payload_size)
+    let us = BtreePage::usable_space(ps);
+    let ot = BtreePage::overflow_threshold(ps);
+    let ut = BtreePage::underflow_threshold(ps);
+    let mp = BtreePage::max_payload_size_in(us);
+    let ideal = BtreePage::ideal_max_payload_size(ps, mc);
+    let per_cell = CELL_HEADER_SIZE + C10_SLOT; // bytes a cell costs on top of its padded payload
+    assert!(us == ps - BTREE_PAGE_HEADER_SIZE, "usable_space_is_page_minus_header");
+    assert!(ut < ot && ot <= us && ut > 0, "thresholds_ordered");
+    assert!(4 * ot >= 3 * us && 4 * ot < 3 * us + 4 && 4 * ut >= us && 4 * ut < us + 4, "thresholds_are_three_quarters_and_one_quarter");
+    assert!(mp % C10_ALIGN == 0 && mp + per_cell <= us && mp + C10_ALIGN + per_cell > us, "max_payload_is_largest_aligned_payload_that_fits");
+    assert!(mp <= u16::MAX as usize, "max_allowed_payload_fits_u16");
+    assert!(ideal > 0 && ideal % C10_ALIGN == 0 && ideal <= mp, "ideal_payload_positive_aligned_not_above_max");
+    assert!(mc * (ideal + per_cell) <= us, "ideal_payload_fits_min_cells_times_in_empty_page");
+    assert!(ideal >= CELL_HEADER_SIZE, "ideal_payload_not_smaller_than_a_cell_header");
+}
+
+// ---- C10.cell_codec ---------------------------------------------------------------------------------------------------
+fn c10_bytes_eq(a: &[u8], b: &[u8]) -> bool {
+    if a.len() != b.len() {
+        return false;
+    }
+    let mut i = 0;
+    let mut ok = true;
+    while i < a.len() {
+        ok &= a[i] == b[i];
+        i += 1;
+    }
+    ok
+}
+macro_rules! c10_codec {
+    ($name:ident, $n:literal, $unwind:expr) => {
+        #[kani::proof]
+        #[kani::unwind($unwind)]
+        #[kani::stub(std::fmt::format, c10_stub_format)]
+        #[kani::stub(std::mem::swap, c10_swap)]
+        fn $name() {
+            let d: [u8; $n] = kani::any();
+            let lcv: PageId = kani::any();
+            let ovf: PageId = kani::any();
+            let mut buf = C10Buf::zeroed();
+            let mut p = c10_page(&mut buf, 7);
+            kani::cover!(true, "reach");
+            // plain cell with a left child
+            let mut c = OwnedCell::new(&d);
+            c.set_left_child(Some(lcv));
+            assert!(
+                c.len() == $n && c.metadata().size() as usize == c10_pad($n) && c.total_size() == c10_total($n) && c.storage_size() == c10_total($n) + C10_SLOT && !c.is_overflow() && c.overflow_page().is_none(),
+                "owned_cell_sizes"
+            );
+            assert!(c10_bytes_eq(c.effective_data(), &d), "owned_cell_payload");
+            assert!(c10_okf(p.push(c)).is_some(), "push_ok");
+            // overflow cell: payload followed by the big-endian overflow page id, no left child
+            let o = OwnedCell::new_overflow(&d, ovf);
+            assert!(o.len() == $n + 8 && o.metadata().size() as usize == c10_pad($n + 8) && o.is_overflow() && o.overflow_page() == Some(ovf) && o.left_child().is_none(), "owned_overflow_cell_metadata");
+            assert!(c10_okf(p.push(o)).is_some(), "push_ok");
+            {
+                let r = p.cell(0);
+                let h = r.metadata();
+                assert!(
+                    h.left_child() == Some(lcv) && !h.is_overflow() && h.len() == $n && h.size() as usize == c10_pad($n) && r.left_child() == Some(lcv) && !r.is_overflow() && r.overflow_page().is_none(),
+                    "cell_ref_metadata_roundtrip"
+                );
+                assert!(r.len() == $n && r.total_size() == c10_total($n) && r.storage_size() == c10_total($n) + C10_SLOT && r.full_data().len() == c10_pad($n), "cell_ref_sizes_roundtrip");
+                assert!(c10_bytes_eq(r.effective_data(), &d), "cell_ref_payload_roundtrip");
+            }
+            {
+                let r = p.cell(1);
+                assert!(r.is_overflow() && r.overflow_page() == Some(ovf) && r.left_child().is_none() && r.len() == $n + 8, "overflow_cell_ref_metadata_roundtrip");
+                assert!(c10_bytes_eq(&r.effective_data()[..$n], &d), "overflow_cell_ref_payload_roundtrip");
+            }
+            {
+                let oc = p.owned_cell(0);
+                assert!(oc.left_child() == Some(lcv) && !oc.is_overflow() && oc.len() == $n && oc.metadata().size() as usize == c10_pad($n), "owned_copy_metadata_roundtrip");
+                assert!(c10_bytes_eq(oc.effective_data(), &d), "owned_copy_payload_roundtrip");
+                let oo = p.owned_cell(1);
+                assert!(oo.is_overflow() && oo.overflow_page() == Some(ovf) && oo.len() == $n + 8, "owned_copy_overflow_roundtrip");
+            }
+            {
+                let mut cm = p.cell_mut(0);
+                cm.set_left_child(None);
+            }
+            assert!(p.cell(0).left_child().is_none() && p.child(0).is_none() && c10_bytes_eq(p.cell(0).effective_data(), &d), "cell_mut_set_left_child_only_changes_left_child");
+            std::mem::forget(p);
+        }
+    };
+}
+// @obl harness=c10_codec_8 id=C10.cell_codec[8] tier=quick funcs="OwnedCell::new,OwnedCell::new_overflow,BtreeOps::push,BtreeOps::cell,BtreeOps::owned_cell,BtreeOps::cell_mut,CellRef::from_raw,CellRef::overflow_page" bounds="payload of 8 fully symbolic bytes; every left child / overflow page id" stubs="std::fmt::format,std::mem::swap"
+c10_codec!(c10_codec_8, 8, 20);
+// @obl harness=c10_codec_13 id=C10.cell_codec[13] tier=quick funcs="OwnedCell::new,OwnedCell::new_overflow,BtreeOps::push,BtreeOps::cell,BtreeOps::owned_cell,BtreeOps::cell_mut,CellRef::from_raw,CellRef::overflow_page" bounds="payload of 13 fully symbolic bytes (3 padding bytes; overflow variant 21 -> 24); every left child / overflow page id" stubs="std::fmt::format,std::mem::swap"
+c10_codec!(c10_codec_13, 13, 20);
+// @obl harness=c10_codec_24 id=C10.cell_codec[24] tier=quick funcs="OwnedCell::new,OwnedCell::new_overflow,BtreeOps::push,BtreeOps::cell,BtreeOps::owned_cell,BtreeOps::cell_mut,CellRef::from_raw,CellRef::overflow_page" bounds="payload of 24 fully symbolic bytes; every left child / overflow page id" stubs="std::fmt::format,std::mem::swap"
+c10_codec!(c10_codec_24, 24, 30);
